@@ -184,6 +184,14 @@ const WITNESS: &[&str] = &[
     "fn dsp(){ let t = (1.0, 2.0)\n t.0 = 3.0\n t.0 }",
     "fn dsp(){ 1.0 = 2.0\n 0.0 }",
     "fn dsp(){ let f = |x| x\n f(1.0) = 2.0\n 0.0 }",
+    // files that include each other (`@INC@` = a directory the harness fills, see incfiles.rs): cycles of length 2, 3, 5,
+    // a cycle of `mod name;` files, and - not cyclic - a chain of 48 files and a diamond
+    "include(\"@INC@/cyc2_0.mmm\")\nfn dsp() {\n  cyc2_f0(1.0)\n}\n",
+    "include(\"@INC@/cyc3_0.mmm\")\nfn dsp() {\n  cyc3_f0(1.0)\n}\n",
+    "include(\"@INC@/cyc5_0.mmm\")\nfn dsp() {\n  cyc5_f0(1.0)\n}\n",
+    "include(\"@INC@/mcyc_main.mmm\")\nfn dsp() {\n  mcyc_entry(1.0)\n}\n",
+    "include(\"@INC@/chain_0.mmm\")\nfn dsp() {\n  chain_f0(1.0) + chain_f47(1.0)\n}\n",
+    "include(\"@INC@/dia_top.mmm\")\nfn dsp() {\n  dia_top(1.0)\n}\n",
 ];
 fn layout(tier: Tier) -> Layout {
     let (l_front, l_comp) = match tier {
@@ -244,7 +252,7 @@ pub fn make_case(tier: Tier, idx: u64) -> Case {
     let idx = idx - l.n_ladder;
     if idx < l.n_wit {
         return Case {
-            text: WITNESS[idx as usize].to_string(),
+            text: crate::incfiles::subst(WITNESS[idx as usize]),
             family: "witness",
             origin: format!("witness {idx}"),
             compile: true,
